@@ -10,8 +10,9 @@ CFG = {
                  "parameters); go/ast extractor pinning the guards of both scanners to the model; differential correspondence "
                  "model = real scanners / real Draw + Spec.Wrap / Spec.WrapDraw oracles on the real output",
     "rule": "one case = one (scanner, text, width range 0..6 or w..w+1) for text.SoftwrapScanner (P), richtext.SoftwrapScanner (R), "
-            "HardwrapScanner (H), Text.Draw/RichText.Draw soft wrap (DP/DR), RichText.Draw hard wrap (DH), the 65538-line row "
-            "wrap-around witness (DW). Texts: all strings over {a,b,space,-,\\n,世,e+U+0301,U+2060,tab} "
+            "HardwrapScanner (H), Text.Draw/RichText.Draw soft wrap (DP/DR), RichText.Draw hard wrap (DH), Text.Draw hard wrap (DT, round 3), "
+            "the 65538-line row wrap-around witness (DW). R and H also run the aliasing oracle (input cells, spare capacity behind them, "
+            "every returned line unchanged after the iteration). Texts: all strings over {a,b,space,-,\\n,世,e+U+0301,U+2060,tab} "
             "up to length 5 (quick) / 6 (thorough) x widths 0..6, random strings of length 6-7 (quick) / 7-9 (thorough), random "
             "word-structured texts up to 2000 graphemes over a 30-grapheme alphabet x widths 1..200, one 65536-column word; Draw for "
             "lengths <= 3 x Max.Width 1..4 x Max.Height in {0,#lines-1,#lines,#lines+1,12,65535}; distinct by op line; non-trivial = "
@@ -25,7 +26,10 @@ CFG = {
         "A-concat: the clustering of a word/line equals the global clustering restricted to it (screened per case; discarded cases are "
         "counted as plain:aconcat-discard:*; a tab inside an unbreakable word is the main discarded shape; 10 of 77400 quick cases are "
         "discarded because uniseg is not position independent there)",
-        "C14's model of the drawing code (Model.Layout.drawText on Model.Surface, tied by C14's extractor and correspondence) is imported",
+        "C14's model of the drawing code (Model.Layout.drawText on Model.Surface, tied by C14's extractor and correspondence) is imported; "
+        "its ellipsis condition and NewSurface arguments are read from the source (Gen.SurfaceFacts.EllAtom / SzArg) and pinned by facts_hard_mode / facts_size_ok",
+        "Model.WrapHeap (heap-level transcription of richtext.SoftwrapScanner.Scan over Go slices) is tied to the value-level model by execution on every "
+        "R case of at most 12 cells (same lines, caller's array unchanged), not by a theorem; Go's append growth policy is a parameter (any function)",
     ],
     "assumptions": [
         "OracleOK / OracleTermW / PosIndep for uniseg.FirstLineSegment (proved for the transcribed richtext.firstLineSegment, checked at run time for text)",
@@ -41,15 +45,22 @@ CFG = {
                   "rows, the width findContainerSize computes, and row y shows line y cell by cell (grapheme j at column = width before it, wide "
                   "graphemes occupy width columns, every other column blank, lines beyond Max.Height dropped); rich_draw_nothing_clipped (every positive-width "
                   "grapheme of every emitted line, trailing whitespace aside, is on the surface); hardwrap_is_split_at_newline "
-                  "(HardwrapScanner = split at \\n exactly); hard_draw_rows (hard-wrap Draw with its ellipsis). GEN: 19 facts_* theorems over the "
+                  "(HardwrapScanner = split at \\n exactly); HARD WRAP (round 3): hard_draw_rows / text_hard_draw_rows / text_hard_draw_exactly_the_lines - row y of RichText.Draw and "
+                  "Text.Draw with Softwrap=false shows Spec.hardLine of line y: hard_line_fits_unaltered (a line that fits, exact fit included, is drawn unaltered) and "
+                  "hard_line_truncated_longest_prefix (a line that does not fit is its longest prefix that leaves room for the ellipsis, then the ellipsis), for all lines "
+                  "narrower than 2^16 columns and all widths; text_hard_lines_are_split (text.hardLines = HardwrapScanner's lines = split at the hard breaks). "
+                  "COMPOSED: rich_wrap_property (the whole property for richtext in one statement, no oracle hypothesis), plain_wrap_property; "
+                  "plain_no_needless_split_needs_pos_indep (an explicit OracleOK segmenter shows PosIndep cannot be dropped). ALIASING: Props.C16Heap over the heap-level model "
+                  "Model.WrapHeap (Go slices, append in place) - a Scan writes only into arrays it allocates: caller's cells and spare capacity untouched, returned lines stay valid. GEN: 19 facts_* theorems over the "
                   "extracted guards of both Scan functions, firstLineSegment, HardwrapScanner and the Draw loops - scanners_agree (text = rich), "
                   "operators proved to be the model's tests for all inputs, int sums (F45), state reset (F116). Real violations found and fixed "
                   "in /repo: F44, F45 (round 1), F116 (stale uniseg state after a long-word split: terminator inside a line, needless split), "
-                  "F216 (row counter wraps at Max.Height 65535). Recorded: F316 (hard-wrap Draw puts an ellipsis on a line that fits exactly; "
-                  "hard_draw_exact_full false with witness, _partial proved).",
+                  "F216 (row counter wraps at Max.Height 65535), F416/F516 (CRLF), and in round 3 F316 (hard-wrap Draw put an ellipsis on a line that "
+                  "fits exactly; fixed in both packages, Witness.F316 shows the pre-fix conjuncts fail) and F616 (Text.Draw without soft wrap used bufio.Scanner: a line over "
+                  "64 KiB silently ended the drawing, a lone CR did not end the line; found by the DT stream).",
     "level_note": "Validated by correspondence only: that the real uniseg meets OracleOK / OracleTermW / PosIndep on the generated texts (asserted per "
-                  "query); Text.Draw without soft wrap (bufio lines; C14 feeds it). Modelled, not verified: tab inside an unbreakable word "
-                  "(long-word split rewrites the tab as 8 spaces), CRLF terminator (only the LF rune is stripped), texts where uniseg is not "
+                  "query); that Model.WrapHeap returns the lines of Model.Wrap (executed on every small R case). Modelled, not verified: tab inside an unbreakable word "
+                  "(long-word split rewrites the tab as 8 spaces), hard-wrap lines of 2^16 columns or more (uint16 column counter), texts where uniseg is not "
                   "position independent (LB14 / LB25 contexts; discarded and counted). The DW witness compares the real surface with the proved "
                   "row specification instead of executing the List-based model on 65535 rows.",
     "timeout": 1500,
